@@ -36,6 +36,7 @@ def STREAM_LIMIT_ERROR : Nat := 4
 def STREAM_STATE_ERROR : Nat := 5
 def FINAL_SIZE_ERROR : Nat := 6
 def FRAME_ENCODING_ERROR : Nat := 7
+def PROTOCOL_VIOLATION : Nat := 10
 def CONNECTION_ID_LIMIT_ERROR : Nat := 9
 def CRYPTO_BUFFER_EXCEEDED : Nat := 13
 
@@ -51,6 +52,9 @@ structure Quirks where
   /-- `_get_or_create_stream_for_send` silently creates a fresh stream object for
       an id whose stream was finished and discarded -/
   reopenFinished : Bool := false
+  /-- `_parse_transport_parameters` assigns the handshake parameters of a server that
+      accepted 0-RTT without comparing them with the remembered ones -/
+  acceptReducedParams : Bool := false
 deriving Repr, DecidableEq, Inhabited
 
 /-- `buffer.size_uint_var` (ValueError beyond 2^62-1) -/
@@ -268,6 +272,9 @@ structure TP where
   maxStreamDataUni : Option Nat := none
   maxStreamsBidi : Option Nat := none
   maxStreamsUni : Option Nat := none
+  /-- `self._is_client and not from_session_ticket and self.tls.early_data_accepted`:
+      the handshake parameters of a server that accepted this client's 0-RTT data -/
+  checked : Bool := false
 deriving Repr, DecidableEq, Inhabited
 
 /-- the `setattr(self, "_remote_" + param, value)` loop at the end of
@@ -282,6 +289,24 @@ def transportParams (c : Conn) (tp : TP) : Conn :=
     remoteMaxStreamDataUni := tp.maxStreamDataUni.getD c.remoteMaxStreamDataUni
     remoteMaxStreamsBidi := tp.maxStreamsBidi.getD c.remoteMaxStreamsBidi
     remoteMaxStreamsUni := tp.maxStreamsUni.getD c.remoteMaxStreamsUni }
+
+/-- `(value or 0) < getattr(self, "_remote_" + param)` for one of the six parameters -/
+def TP.reduced (c : Conn) (tp : TP) : Bool :=
+  decide (tp.maxData.getD 0 < c.remoteMaxData) ||
+  decide (tp.maxStreamDataBidiLocal.getD 0 < c.remoteMaxStreamDataBidiLocal) ||
+  decide (tp.maxStreamDataBidiRemote.getD 0 < c.remoteMaxStreamDataBidiRemote) ||
+  decide (tp.maxStreamDataUni.getD 0 < c.remoteMaxStreamDataUni) ||
+  decide (tp.maxStreamsBidi.getD 0 < c.remoteMaxStreamsBidi) ||
+  decide (tp.maxStreamsUni.getD 0 < c.remoteMaxStreamsUni)
+
+/-- the flow-control part of `_parse_transport_parameters`: a client whose early
+    data was accepted closes with PROTOCOL_VIOLATION when the server's handshake
+    parameters are below the remembered ones (RFC 9000 §7.4.1); otherwise the
+    values are assigned. -/
+def rxTransportParams (c : Conn) (tp : TP) : Conn × Out :=
+  if tp.checked && !c.quirks.acceptReducedParams && tp.reduced c then
+    (c, Out.connError PROTOCOL_VIOLATION)
+  else (transportParams c tp, {})
 
 /-- handshake completion in `_handle_crypto_frame`: both blocked lists are
     re-examined (two `unblock` operations) -/
